@@ -131,12 +131,15 @@ class IPv6FlowSpec(NLRI):
         offset = prefix.get('offset')
         masklen = int(masklen)
 
-        # lenght
-        ip_hex = ip_hex[: math.ceil(masklen / 8)]
-
-        # offset
-        ip_hex = ip_hex[math.floor(offset / 8):]
-        # ip_hex = ip_hex[]
+        # RFC 8956 3.1: the pattern holds the address bits from <offset> up to
+        # <length>, left-aligned and padded to an octet boundary
+        if offset > masklen:
+            raise ValueError('flowspec prefix offset %s is larger than its length %s' % (offset, masklen))
+        pattern_bits = masklen - offset
+        pattern_len = (pattern_bits + 7) // 8
+        pattern = (int(netaddr.IPAddress(ip)) >> (128 - masklen)) & ((1 << pattern_bits) - 1)
+        pattern <<= pattern_len * 8 - pattern_bits
+        ip_hex = binascii.a2b_hex('%0*x' % (pattern_len * 2, pattern)) if pattern_len else b''
 
         return struct.pack('!B', masklen) + struct.pack('!B', offset) + ip_hex
 
